@@ -511,7 +511,7 @@ proof fn lemma_tree_ok_child(a: &UnstableBlocks, b: &UnstableBlocks, i: int)
 //@|     assert(blocks.tree.children@.len() == blocks.tree.children.len());
 //@|     assert(blocks.tree.children@[*idx as int].wf_depth());
 //@| }
-//@ before "if deepest_depth.saturating_sub(second_deepest_depth) >= max_depth_difference {"
+//@ after "let second_deepest_depth = vp_max.unwrap_or("
 //@| proof {
 //@|     // the loop's maximum is the greatest depth among the OTHER children
 //@|     assert forall|s: int| 0 <= s < vp_n && s != vp_h implies child_depth(blocks, s) <= second_deepest_depth.0 by {
